@@ -12,6 +12,7 @@ mod c02;
 mod c03;
 mod c05;
 mod c09;
+mod c10;
 mod c11;
 mod c12;
 mod c13;
@@ -30,6 +31,7 @@ fn main() {
         "C03" => c03::run_case,
         "C05" | "C06" => c05::run_case,
         "C09" => c09::run_case,
+        "C10" => c10::run_case,
         "C11" => c11::run_case,
         "C12" => c12::run_case,
         "C13" => c13::run_case,
